@@ -276,6 +276,27 @@ def main_met():
             if got != want:
                 chk.violation("timeseries step %d ran with %s, the specification says %s" % (i, got, want), sc, klass=dict(klass_met(m), check="driver_params"))
                 break
+    # series with REPEATED records (a constant list; a value that returns later): every step keeps its own label
+    for rep_kw in ({"ustar": [0.3, 0.45, 0.3], "wind_dir": [200.0, 215.0, 200.0], "timestamps": ["a", "b", "c"]}, {"ustar": [0.31, 0.31, 0.31, 0.31]},
+                   {"wind_dir": [10.0, 10.0, 350.0, 10.0], "mol": [-50.0, -50.0, -50.0, -50.0], "timestamps": ["2024-01-01T04:00", "2024-01-01T03:00", "2024-01-01T02:00", "2024-01-01T01:00"]}):
+        metd = dict({"ustar": 0.3, "mol": -100.0, "wind_speed": 3.0, "wind_dir": 270.0}, **rep_kw)
+        raw = {"domain": dict(BASE_DOMAIN, modes=[8, 6], halo=20.0), "towers": [dict(TOWERS[0])], "met": metd, "solver": {"footprint": True, "precision": "double"}}
+        cfg = parse_config_dict(copy.deepcopy(raw))
+        res = run_bldfm_timeseries(cfg, cfg.towers[0])
+        n_runs += 1
+        nst = max(len(v) for v in rep_kw.values())
+        sc = {"kind": "repeated_records", "met": metd}
+        chk.case(json.dumps(sc, sort_keys=True))
+        if len(res) != nst:
+            chk.violation("a series of %d records (some repeated) gives %d results" % (nst, len(res)), sc, klass={"check": "driver_steps"})
+            continue
+        for i, rr in enumerate(res):
+            want_ts = metd["timestamps"][i] if "timestamps" in metd else i
+            want_p = {f: (metd[f][i] if isinstance(metd[f], list) else metd[f]) for f in FIELDS}
+            if rr["timestamp"] != want_ts or any(rr["params"][f] != want_p[f] for f in FIELDS) or rr["params"].get("timestamp", want_ts) != want_ts:
+                chk.violation("series with repeated records: step %d carries the label %r / parameters %s, its own are %r / %s" % (i, rr["timestamp"], {f: rr["params"][f] for f in FIELDS}, want_ts, want_p), sc,
+                              klass={"check": "driver_repeated"})
+                break
     chk.traces = n_runs
     chk.extra["driver_runs"] = n_runs
     chk.extra["exhaustive"] = True
@@ -291,6 +312,9 @@ def main_met():
 
 def build_raw(o, m, square=False):
     dom = dict(BASE_DOMAIN)
+    if not square and (o["ntowers"] + o["tower"] + len(o["closure"])) % 3 == 0:
+        # a TALL domain (ymax > xmax): the default halo is the larger of the two extents
+        dom.update(nx=6, ny=8, xmax=90.0, ymax=160.0)
     if square:
         # a square grid: a user-supplied (ny, nx) flux then has the shape of its own transpose
         dom.update(nx=7, ny=7, xmax=140.0, ymax=105.0)
